@@ -10,10 +10,10 @@ import sys
 from .. import core, engine, gen
 from ..core import Rng
 from ..engine import Outcome
-from .base import PropBase, STD, exec_args, gen_run, plan_of, crashed
+from .base import PropBase, STD, exec_args, gen_run, plan_of, crashed, gen_project_mode, input_args
 from .execsim import gen_cmdline_suppressions, exec_candidates, describe_exec
 
-FRAME = re.compile(r"#\d+ (\S+) .*?/repo/((?:lib|cli|frontend)/[\w.]+):(\d+)")
+FRAME = re.compile(r"#\d+ (\S+) .*?/((?:lib|cli|frontend)/[\w.]+):(\d+)")
 
 
 def tsan_reports(stderr):
@@ -66,9 +66,15 @@ class C16(PropBase):
         for _ in range(2):
             r = gen_run(rng, execs=("thread",), maxjobs=8)
             subs.append(r)
-        return {"tree": proj["tree"], "units": proj["units"], "langs": proj["langs"], "opts": opts,
-                "suppr": gen_cmdline_suppressions(rng, proj["units"]), "bd": rng.chance(0.4), "plist": rng.chance(0.15),
-                "exitcode": None, "subjects": subs}
+        scn = {"tree": proj["tree"], "units": proj["units"], "langs": proj["langs"], "opts": opts,
+               "suppr": gen_cmdline_suppressions(rng, proj["units"]), "bd": rng.chance(0.4), "plist": rng.chance(0.15),
+               "exitcode": None, "subjects": subs}
+        scn["project"] = gen_project_mode(rng, proj["units"], 0.25)
+        if rng.chance(0.2):
+            scn["opts"]["--report-progress"] = "--report-progress=1"     # progress reports from every worker thread (stdout lock)
+        if rng.chance(0.15):
+            scn["opts"]["--debug-warnings"] = "--debug-warnings"
+        return scn
 
     def execute(self, scn, wd):
         out = Outcome()
@@ -86,8 +92,9 @@ class C16(PropBase):
             if scn.get("plist"):
                 os.makedirs(os.path.join(wd, "plist%d" % i))
                 b = b + ["--plist-output=../plist%d" % i]
-            r = core.run_sim("tsan", tree_dir, STD + oargs + b + exec_args(run) + units, plan=plan_of(run), roots=roots, workdir=wd, tag="sub%d" % i,
-                             timeout=300)
+            std = [a for a in STD if a != "-q"] if "--report-progress" in scn.get("opts", {}) else STD
+            r = core.run_sim("tsan", tree_dir, std + oargs + b + exec_args(run) + input_args(scn, units, tree_dir, wd, "sub%d" % i), plan=plan_of(run),
+                             roots=roots, workdir=wd, tag="sub%d" % i, timeout=300)
             out.account(r)
             how = " ".join(exec_args(run)) + " sched=%s" % run.get("sched")
             reps = tsan_reports(r.stderr)
